@@ -125,6 +125,73 @@ def synth_segments(rng, msg_sizes_per_segment, base_id):
     return stream, segs
 
 
+def class_pair():
+    """two real message classes with fully initialised sample payloads such that decoding a payload with the OTHER class and
+    re-encoding it silently changes the bytes (known fields first, unknown fields last) - checked here, not assumed"""
+    from google.protobuf.descriptor import FieldDescriptor as FD
+    from numbers_parser.generated.mapping import ID_NAME_MAP
+
+    def sample(k):
+        m = k()
+        n = 0
+        for f in m.DESCRIPTOR.fields:
+            if getattr(f, "is_repeated", False):
+                continue
+            try:
+                if f.cpp_type in (FD.CPPTYPE_INT32, FD.CPPTYPE_INT64, FD.CPPTYPE_UINT32, FD.CPPTYPE_UINT64):
+                    setattr(m, f.name, 7 + n)
+                elif f.cpp_type == FD.CPPTYPE_BOOL:
+                    setattr(m, f.name, True)
+                elif f.cpp_type == FD.CPPTYPE_STRING:
+                    setattr(m, f.name, "s%d" % n if f.type == FD.TYPE_STRING else b"b")
+                elif f.cpp_type in (FD.CPPTYPE_FLOAT, FD.CPPTYPE_DOUBLE):
+                    setattr(m, f.name, 1.5)
+                else:
+                    continue
+                n += 1
+            except Exception:  # noqa: BLE001
+                continue
+        return m.SerializeToString() if n >= 2 and m.IsInitialized() else None
+
+    def via(k, pl):
+        try:
+            return k.FromString(pl).SerializePartialToString()
+        except Exception:  # noqa: BLE001
+            return None
+    want = [(200, 201)] + [(a, b) for a in sorted(ID_NAME_MAP) for b in sorted(ID_NAME_MAP) if a < b]
+    for a, b in want:
+        try:
+            pa, pb = sample(ID_NAME_MAP[a]), sample(ID_NAME_MAP[b])
+        except Exception:  # noqa: BLE001
+            continue
+        if pa and pb and via(ID_NAME_MAP[a], pa) == pa and via(ID_NAME_MAP[b], pb) == pb:
+            x, y = via(ID_NAME_MAP[b], pa), via(ID_NAME_MAP[a], pb)
+            if x is not None and y is not None and x != pa and y != pb:
+                return {1: (a, pa), 2: (b, pb)}
+    raise Machinery("no pair of message classes found whose payloads change under the other class")
+
+
+def message_segment(merge, msgs, pair, ident):
+    """IWAMessages.tla state -> the bytes of one real segment: header (ArchiveInfo with should_merge, message types, patch base
+    indices, lengths) followed by the payloads"""
+    from numbers_parser.generated.TSPArchiveMessages_pb2 import ArchiveInfo
+    info = ArchiveInfo(identifier=ident)
+    if merge:
+        info.should_merge = True
+    payloads = []
+    for (t, base) in msgs:
+        if t == 0:
+            (_, pl) = pair[msgs[base - 1][0]]
+            mi = info.message_infos.add(type=0, length=len(pl), base_message_index=base - 1)
+        else:
+            (tid, pl) = pair[t]
+            mi = info.message_infos.add(type=tid, length=len(pl))
+        mi.version.extend([1, 0, 5])
+        payloads.append(pl)
+    hdr = info.SerializeToString()
+    return iwa.varint(len(hdr)) + hdr + b"".join(payloads)
+
+
 def run(ctx):
     warnings.simplefilter("ignore")
     from numbers_parser.iwafile import IWAFile
@@ -231,6 +298,41 @@ def run(ctx):
         if ncase % 7 == 0:
             ctx.sample({"synthetic_stream_message_sizes": shp, "stream_bytes": T, "example_cuts": cutsets[-1][:6]})
     ctx.extra["synthetic_cases"] = ncase
+    # ---- message classes: every segment of IWAMessages.tla (regular messages of two classes, patches with every legal base) as a real archive
+    ctx.stage("messages")
+    segstates = []
+
+    def h_seg(line):
+        m = re.match(r'^"G (TRUE|FALSE) <<(.*)>>"$', line)
+        if m:
+            segstates.append((m.group(1) == "TRUE", [(int(a), int(b)) for a, b in re.findall(r"<<(\d+), (\d+)>>", m.group(2))]))
+            return True
+        return False
+    mcfg = 'CONSTANTS Types = {1, 2}\nMaxMsgs = %d\nBug = "%s"\nSPECIFICATION Spec\nINVARIANT BytesReproduced\n%sCHECK_DEADLOCK FALSE\n'
+    ctx.tlc("IWAMessages", mcfg % (4, "none", "INVARIANT EmitSegment\n"), what="MC_IWAMessages[<=4 messages, 2 classes, patches]", stream_to=h_seg, timeout=600)
+    for bug in ("PatchBaseFirst", "PatchLikeBasePosition"):
+        ctx.tlc("IWAMessages", mcfg % (3, bug, ""), what="Bug_" + bug, expect_violation="BytesReproduced", count=False)
+    segstates = sorted(set((mg, tuple(ms)) for mg, ms in segstates))
+    if len(segstates) < 100:
+        raise Machinery("only %d segment states parsed" % len(segstates))
+    pair = class_pair()
+    ctx.extra["message_class_cases"] = {"segments_from_tlc": len(segstates), "classes": [pair[1][0], pair[2][0]]}
+    for n, (mg, ms) in enumerate(segstates):
+        # the segment alone, and between two plain segments
+        plain, _ = synth_segments(rng, [[30]], 9000 + 3 * n)
+        plain2, _ = synth_segments(rng, [[12, 40]], 9001 + 3 * n)
+        for stream in (message_segment(mg, ms, pair, 9002 + 3 * n), plain + message_segment(mg, ms, pair, 9002 + 3 * n) + plain2):
+            T = len(stream)
+            for cuts, stored in (([T], set()), ([T], {0}), ([T // 2, T - T // 2], {1})):
+                framed = iwa.frame(stream, cuts, stored)
+                ctx.evaluations += 1
+                ctx.distinct.add(("msg", mg, ms, len(stream), tuple(cuts), tuple(sorted(stored))))
+                ev = member_event("segment merge=%s messages(type, base)=%s" % (mg, list(ms)), framed)
+                if ev is None:
+                    raise Machinery("message segment not readable by the harness's own reader: %s %s" % (mg, ms))
+                ev["size"] = len(framed)
+                syn_events.append(ev)
+    ctx.sample({"segment": {"should_merge": segstates[len(segstates) // 2][0], "messages_type_base": list(segstates[len(segstates) // 2][1])}})
     # stale declared lengths: grow a decoded object, encode, the header must declare the new size
     stream, segs = synth_segments(rng, [[50, 60], [70]], 7000)
     f = IWAFile.from_buffer(iwa.frame(stream, [len(stream)]), "stale")
